@@ -23,23 +23,23 @@ ID = "C19"
 PROPS = ["props/C19.v"]
 EXTRACTS = ["C19"]
 THEOREMS = [
-    "C19_roundtrip_partial", "C19_roundtrip_simple_partial", "C19_roundtrip_annotations_partial", "C19_never_rejected_partial", "C19_names_agree",
-    "C19_keys_are_compiler_keys", "C19_keys_unique_any_text", "C19_roundtrip_full_statement_refuted", "C19_never_rejected_full_statement_refuted",
-    "C19_deps_exact", "C19_two_find_links_refuted", "C19_nested_find_links_refuted",
-    "C19_parent_find_links_refuted", "C19_missing_sha256_refuted", "C19_generated_constants_ok",
+    "C19_roundtrip", "C19_roundtrip_annotations", "C19_never_rejected", "C19_names_agree",
+    "C19_keys_are_compiler_keys", "C19_keys_unique_any_text", "C19_deps_exact", "C19_wheel_label_below_package",
+    "C19_former_witnesses_roundtrip", "C19_deep_parent_label_refuted", "C19_missing_sha256_refuted",
+    "C19_generated_constants_ok",
 ]
 RULE = ("solved graphs produced by the real perform_compile over generated in-memory universes (names with "
         "dots/dashes/case, extras, 1..n requirers, file-path requirers, sdists and wheels, index directives, 0..2 "
-        "find-links directories incl. nested/parent ones) are written by the real Bazel-mode writer call "
+        "or more find-links directories incl. nested/parent ones) are written by the real Bazel-mode writer call "
         "(header + write_requirements_file(urls, hashes, multiline)); the shimmed Starlark parse_lockfile and the "
         "extracted Coq parse_lockfile read the same text and the resulting dicts (order, every field) or error "
         "classes are compared; the Coq writer model must reproduce the real text byte for byte and, inside the "
-        "theorem's guard, lock_view must equal the loader's answer; plus end-to-end runs of "
+        "wf_view, lock_view must equal the loader's answer; plus end-to-end runs of "
         "private/compiler.py compile_main on zip-built wheel directories (requirements.in next to the lock, in a "
         "sub-directory or in a sibling directory, with --find-links relative to the input file; fresh and re-compiled on "
-        "the lock just written) where, for layouts inside the guard, the loader's answer is compared with the statement "
+        "the lock just written) where, for layouts whose wheel files the loader's label rule can name, the loader's answer is compared with the statement "
         "computed from the layout alone (pins, versions, file sha256, wheel labels, dependencies); ~15% mutated/malformed lock texts, "
-        "sanitize/normalize on generated names, urljoin on relative paths. Non-trivial = a lock text with at "
+        "sanitize/normalize on generated names. Non-trivial = a lock text with at "
         "least two pins and one project-to-project requirer edge; distinct = distinct lock texts.")
 TRUSTED_BASE = [
     "T1 harness/tr_c19.py: skeletons of parse_constraint/parse_lockfile, literal extraction, sanitize chain, "
@@ -432,8 +432,10 @@ def view_of_graph(e, spec, results, roots, repos) -> Dict[str, Any]:
             lk: Any = None
         elif "://" not in link[0] and link[1].startswith(link[0] + "/") and "/" not in link[1][len(link[0]) + 1:]:
             lk = ["W", link[0], link[1][len(link[0]) + 1:]]
-        else:
+        elif link[0] and "://" in link[0]:
             lk = ["U", urljoin(link[0], link[1])]
+        else:
+            lk = ["U", link[1]]       # scheme-less base that is not (dir, dir/file): written as is
         pins.append({"name": md.name, "version": str(md.version), "hash": md.hash, "via": [list(split_requirer(c)) for c in cons], "link": lk})
     return {"header": header[:-1].split("\n"), "indexes": indexes, "find_links": fls, "pins": pins}
 
@@ -449,8 +451,8 @@ def graph_expectation(e, results, roots) -> List[Dict[str, Any]]:
         link = md.candidate.link
         out.append({
             "key": node.key, "name": md.name, "version": str(md.version), "hash": md.hash,
-            "link": None if link is None else urljoin(link[0], link[1]),
-            "is_fl": link is not None and "://" not in link[0],
+            "link": None if link is None else (urljoin(link[0], link[1]) if link[0] and "://" in link[0] else link[1]),
+            "is_fl": link is not None and not (link[0] and "://" in link[0]),
             "deps": sorted({d.key for d in node.dependencies if d.key in keys}),
         })
     return out
@@ -474,7 +476,7 @@ def canon_impl(e, text: str, label: str, constraint: Optional[str], annotations:
             return ("ERR", "FailUrl")
         return ("ERR", "fail:" + m[:60])
     except TypeError:
-        return ("ERR", "ErrStartswithArgs")
+        return ("ERR", "EXC:TypeError")      # e.g. url.startswith( *wheel_dirs) of the unrepaired loader
     except IndexError:
         return ("ERR", "ErrIndex")
     except Exception as ex:  # anything else is reported verbatim (and will mismatch)
@@ -735,7 +737,9 @@ def gen_layout(rng, fls: Optional[List[str]] = None) -> Dict[str, Any]:
     directory through different spellings ("wheeldir", "../wheeldir", "../../pkg/wheeldir")."""
     names = rng.sample(["Foo.Bar", "baz-qux", "lone", "extra1", "Zed", "m.n-o", "pkg_a"], rng.choice([2, 3, 4, 5]))
     if fls is None:
-        fls = [rng.choice(FL_SIMPLE)] if rng.random() < 0.75 else rng.choice([["w1", "w2"], ["sub/wheels"], ["../wheels"], ["./wheels"]])
+        fls = [rng.choice(FL_SIMPLE)] if rng.random() < 0.5 else rng.choice(
+            [["w1", "w2"], ["sub/wheels"], ["../wheels"], ["./wheels"], ["wheels/linux", "wheels/mac"], ["w1", "../w2"],
+             ["../../w"], ["a/b/c"], ["w1", "w2", "w3"], ["../../w/x"]])
     wheels: Dict[str, List[Any]] = {d: [] for d in fls}
     for i, nm in enumerate(names):
         reqs = []
@@ -778,11 +782,34 @@ def gen_layout(rng, fls: Optional[List[str]] = None) -> Dict[str, Any]:
 E2E_IN_DIRS_DISTINCT = [".", "in", "sub/in", "dev", "../sib", "../../other/in"]
 
 
+def deep_parent(d: str) -> bool:
+    """An upward find-links directory with more than one remaining segment ("../../w/x"), or one
+    that leaves the workspace: the label rule of the loader's relative-parent branch does not name
+    the file there (known finding C19-deep-parent-label)."""
+    parts = [x for x in d.split("/") if x not in ("", ".")]
+    ups = 0
+    while ups < len(parts) and parts[ups] == "..":
+        ups += 1
+    return ups > 0 and (len(parts) - ups != 1 or ".." in parts[ups:])
+
+
 def layout_accepted(layout: Dict[str, Any]) -> bool:
-    """Layouts the unchanged loader is expected to accept: one wheel directory that is a
-    direct child of the lock file's directory (the guard of the theorem)."""
-    fls = layout["find_links"]
-    return len(fls) == 1 and "/" not in fls[0] and fls[0] not in (".", "..") and not fls[0].startswith("..")
+    """Layouts on which the statement is checked end to end: every wheel directory (any number,
+    nested or beside the lock's package) whose files the loader's label rule can name."""
+    ok = True
+    depth = len([x for x in layout["reqs_dir"].split("/") if x])
+    for d in layout["find_links"]:
+        ups = len([x for x in d.split("/") if x == ".."])
+        ok = ok and not deep_parent(d) and ups <= depth and d not in (".", "..")
+    return ok
+
+
+def label_path(whl: Optional[str]) -> Optional[str]:
+    """workspace-relative path a label <repo>//<pkg>:<name> names"""
+    if whl is None or "//" not in whl or ":" not in whl:
+        return None
+    pkg, _, name = whl.partition("//")[2].partition(":")
+    return os.path.normpath(os.path.join(pkg, name)).replace(os.sep, "/")
 
 
 def _nkey(name: str) -> str:
@@ -853,9 +880,9 @@ def oracle_e2e(ctx: Ctx, layout: Dict[str, Any]) -> Optional[str]:
             return "version of %s: %r, wheel has %r" % (name, gver, ver)
         if sha != shas.get(fn):
             return "sha256 of %s: %r, file has %r" % (name, sha, shas.get(fn))
-        want = "@//%s:%s/%s" % (layout["reqs_dir"], d, fn)
-        if url is not None or whl != want:
-            return "wheel label of %s: %r (url %r), expected %r" % (name, whl, url, want)
+        want = os.path.normpath(os.path.join(layout["reqs_dir"], d, fn)).replace(os.sep, "/")
+        if url is not None or whl is None or not whl.startswith("@//") or label_path(whl) != want:
+            return "wheel label of %s: %r (url %r) does not name the file %r" % (name, whl, url, want)
         if sorted(set(deps)) != sorted(edges[k]):
             return "dependencies of %s: %r, its metadata requires %r" % (name, sorted(set(deps)), sorted(edges[k]))
     return None
@@ -883,8 +910,13 @@ def oracle_graph(e, text: str, label: str, graph: List[Dict[str, Any]]) -> Optio
         if g["hash"] is None or not g["hash"].startswith("sha256:") or sha != g["hash"][7:]:
             return "sha256 of %s: %r, solved %r" % (g["name"], sha, g["hash"])
         if g["is_fl"]:
-            if url is not None or whl is None or not whl.endswith(":" + g["link"]):
-                return "wheel label of %s: %r for %r" % (g["name"], whl, g["link"])
+            lk = g["link"]
+            if url is not None or whl is None:
+                return "wheel label of %s: %r for %r" % (g["name"], whl, lk)
+            if not deep_parent(lk.rsplit("/", 1)[0]) and not lk.startswith(".."):
+                pkg = label.partition("//")[2].partition(":")[0]
+                if label_path(whl) != os.path.normpath(os.path.join(pkg, lk)).replace(os.sep, "/"):
+                    return "wheel label of %s: %r does not name %r below %r" % (g["name"], whl, lk, pkg)
         elif url != g["link"] or whl is not None:
             return "url of %s: %r, solved %r" % (g["name"], url, g["link"])
         if sorted(set(deps)) != g["deps"]:
@@ -893,14 +925,13 @@ def oracle_graph(e, text: str, label: str, graph: List[Dict[str, Any]]) -> Optio
 
 
 def in_guard(view: Dict[str, Any]) -> bool:
-    """The guard of the partial theorem, computed independently on the graph-derived view."""
-    fls = view["find_links"]
+    """wf_view's data conditions (sha256, link, a requirer annotation, wheel of a declared
+    directory), computed independently on the graph-derived view."""
     for p in view["pins"]:
         if not p["hash"] or not p["hash"].startswith("sha256:") or p["link"] is None or not p["via"]:
             return False
-        if p["link"][0] == "W":
-            if not (len(fls) == 1 and fls[0] == p["link"][1] and "/" not in fls[0] and not fls[0].startswith("..") and fls[0] != "."):
-                return False
+        if p["link"][0] == "W" and p["link"][1] not in view["find_links"]:
+            return False
     return True
 
 
@@ -968,7 +999,7 @@ def correspondence(ctx: Ctx) -> None:
     # (2) end to end: private/compiler.py compile_main on wheel directories on disk; requirements.in
     #     next to the lock, in a sub-directory or in a sibling directory; fresh and re-compiled
     for _ in range(ctx.n(60, 500)):
-        layout = gen_layout(rng) if rng.random() < 0.6 else gen_layout(rng, fls=[rng.choice(FL_SIMPLE)])
+        layout = gen_layout(rng)
         try:
             text = run_e2e(ctx, layout)
         except SystemExit:
@@ -1018,15 +1049,6 @@ def correspondence(ctx: Ctx) -> None:
     for nm in name_cases:
         add("S", "S " + hx(nm), nm)
 
-    # (5) urljoin on relative paths (the writer's link rendering for find-links candidates)
-    segs = ["w", "wheels", "..", ".", "", "a.b", "x-1.0-py3-none-any.whl"]
-    for _ in range(ctx.n(200, 4000)):
-        b = "/".join(rng.choice(segs) for _ in range(rng.choice([1, 1, 2, 3])))
-        u = b + "/" + rng.choice(segs[1:]) if rng.random() < 0.7 else "/".join(rng.choice(segs) for _ in range(rng.choice([1, 2, 3])))
-        if b.startswith("//") or u.startswith("//"):
-            continue   # a leading "//" is a network location for urlsplit: outside urljoin_rel's domain
-        add("U", "U {} {}".format(hx(b), hx(u)), (b, u))
-
     answers = run_model("C19", lines)
     if len(answers) != len(lines):
         ctx.obligation_broken("model-runner:C19", f"{len(answers)} answers for {len(lines)} cases")
@@ -1052,19 +1074,19 @@ def correspondence(ctx: Ctx) -> None:
                 recheck.append(info)
         elif kind == "W":
             toks = ans.split()
-            wf, guard, text = toks[0] == "1", toks[1] == "1", common.unhx(toks[2]) if len(toks) > 2 else ""
-            ctx.count("view:wf=%d,guard=%d" % (wf, guard))
+            wf, guard, text = toks[0] == "1", True, common.unhx(toks[1]) if len(toks) > 1 else ""
+            ctx.count("view:wf=%d" % (wf,))
             ctx.case(key=("W", info["text"]), nontrivial=len(info["view"]["pins"]) >= 2)
             if text != info["text"]:
                 ctx.mismatch("writer-model-text", {"spec": info["spec"], "text": info["text"]}, info["text"][-400:], text[-400:])
             info["wf"], info["guard"] = wf, guard
             # the guard computed by the model vs the guard on the case description
             if (wf and guard) and not in_guard(info["view"]):
-                ctx.mismatch("guard-cross-check", info["spec"], "outside the guard (computed on the graph)", "wf_view && fl_guard")
+                ctx.mismatch("guard-cross-check", info["spec"], "outside wf_view (computed on the graph)", "wf_view")
         elif kind == "L":
             ctx.case(key=("L", info["text"]), nontrivial=False)
             if info.get("wf") and info.get("guard"):
-                ctx.count("roundtrip-in-guard")
+                ctx.count("roundtrip-wf")
                 got = parse_model_dict(ans)
                 exp = info["impl"]
                 # theorem instance: annotations = {} only
@@ -1076,7 +1098,7 @@ def correspondence(ctx: Ctx) -> None:
                 if why is not None and calm_graph(info):
                     ctx.mismatch("statement-on-implementation", {"spec": info["spec"], "text": info["text"]}, why, "holds in the model (theorem)")
             else:
-                ctx.count("roundtrip-outside-guard:" + (info["impl"][0] if info["impl"][0] == "OK" else info["impl"][1]))
+                ctx.count("roundtrip-outside-wf:" + (info["impl"][0] if info["impl"][0] == "OK" else info["impl"][1]))
         elif kind == "S":
             toks = ans.split()
             impl = (e.sanitize(info), e.utils.normalize_project_name(info))
@@ -1088,13 +1110,6 @@ def correspondence(ctx: Ctx) -> None:
             pep = toks[2] == "1"
             if pep and impl[0] != impl[1]:
                 ctx.mismatch("names-agree-on-implementation", info, impl, "equal on PEP 508 names (theorem)")
-        elif kind == "U":
-            b, u = info
-            impl = urljoin(b, u)
-            ctx.count("urljoin")
-            ctx.case(key=("U", b, u), nontrivial=False)
-            if common.unhx(ans) != impl:
-                ctx.mismatch("urljoin_rel", info, impl, common.unhx(ans))
     coq_recheck(ctx, e, recheck[:8])
 
 
@@ -1143,7 +1158,7 @@ def coq_recheck(ctx: Ctx, e, infos: List[Any]) -> None:
                 common.coq_string(r[0]), cs(r[7]), cs(r[6]), cl(r[9]), common.coq_string(r[1]), common.coq_string(r[3]),
                 cs(r[4]), common.coq_string(r[2]), cl(r[8]), cs(r[5])) for r in exp[1])
             want = "Ok [" + rows + "]"
-        elif exp[1] in ("FailMinLen", "FailHash", "FailUrl", "ErrStartswithArgs", "ErrIndex"):
+        elif exp[1] in ("FailMinLen", "FailHash", "FailUrl", "ErrIndex"):
             want = "Err " + exp[1]
         else:
             continue
@@ -1212,7 +1227,9 @@ def search(ctx: Ctx) -> Optional[Dict[str, Any]]:
             if why:
                 return {"kind": "e2e", "input": c["layout"], "why": why}
     for _ in range(ctx.n(40, 200)):
-        layout = gen_layout(rng, fls=[rng.choice(FL_SIMPLE)])
+        layout = gen_layout(rng)
+        if not layout_accepted(layout):
+            continue
         try:
             why = oracle_e2e(ctx, layout)
         except SystemExit:
@@ -1237,30 +1254,32 @@ def replay(ctx: Ctx, payload: Dict[str, Any]) -> bool:
 
 
 def replay_known(ctx: Ctx, entry: Dict[str, Any]) -> Optional[bool]:
-    """Known findings are stored as end-to-end layouts (the real compile_main writes the lock from
-    wheel directories on disk) or as a universe description (real perform_compile + the real
-    Bazel-mode writer call); the real (shimmed) loader reads the text. True = still rejected."""
+    """Findings are stored as end-to-end layouts (the real compile_main writes the lock from wheel
+    directories on disk) or as a universe description (real perform_compile + the real Bazel-mode
+    writer call); the real (shimmed) loader reads the text.  True = the defect (still / again)
+    reproduces: for layouts the whole statement is checked (oracle_e2e), for universes the loader's
+    error class."""
     e = env()
     data = json.loads((common.VERIF / entry["replay"]).read_text())
     if data["kind"] == "e2e":
-        text = run_e2e(ctx, data["layout"])
-        obs = canon_impl(e, text, data["label"], None, {})
-    else:
-        case = build_case(ctx, data["spec"])
-        obs = canon_impl(e, case["text"], data["spec"]["label"], None, {})
+        return oracle_e2e(ctx, data["layout"]) is not None
+    case = build_case(ctx, data["spec"])
+    obs = canon_impl(e, case["text"], data["spec"]["label"], None, {})
     return obs[0] != "OK" and obs[1] == data["expect_error"]
 
 
-LEVEL_TEXT = ("Round-trip theorem parse_lockfile (write_bazel view) = Ok (lock_view view) proved in Coq for ALL well-formed views "
-              "(any number of pins, requirers, directives, header lines; any label, constraint and annotations) inside a decidable "
-              "guard (wheel pins come from exactly one find-links directory with a plain name), over a Gallina transcription of the "
-              "Starlark loader parameterised by the literals T1 reads from /repo on every run; names_agree (sanitize = normalize on "
-              "PEP 508 names, checked on all 256 bytes from the two generated chains), key and deps characterisations, never_rejected "
-              "as corollary; the unguarded statements are refuted by machine-checked witnesses (two find-links directives, nested and "
-              "parent find-links directory, non-sha256 hash), each replayed on the real compiler + loader as a known finding.")
+LEVEL_TEXT = ("Round-trip theorem parse_lockfile (write_bazel view) = Ok (lock_view view) proved in Coq at full strength for ALL "
+              "well-formed views (any number of pins, requirers, index and find-links directives - nested and upward directories "
+              "included -, header lines; any label, constraint and annotations) over a Gallina transcription of the Starlark loader "
+              "parameterised by the literals T1 reads from /repo on every run; never_rejected as corollary; names_agree (sanitize = "
+              "normalize on PEP 508 names, checked on all 256 bytes from the two generated chains), key and deps characterisations, "
+              "the wheel-label rule below the lock's package; two machine-checked witnesses of what remains outside (non-sha256 hash; "
+              "upward directory with more than one remaining segment gets a label that does not name the file), both replayed on the "
+              "real compiler + loader as known findings.")
 LEVEL_NOTE = ("Trusted: Coq kernel, extraction, OCaml driver, T1 translator, T2 harness, the CPython execution of the .bzl sources "
               "(no Starlark interpreter in the sandbox) and the Label stand-in; the writer model is validated byte-for-byte against "
               "the real writer (and the loader model field-for-field against the real loader, incl. malformed texts) by sampling only; "
-              "ASCII lock files; the order of pins and of via annotations is the writer's (C06/C07).")
+              "ASCII lock files; the order of pins and of via annotations is the writer's (C06/C07); for upward find-links "
+              "directories lock_view's label is the loader's own rule (characterised by examples, not by a general theorem).")
 TECHNIQUE = ("Rocq proof over a Gallina transcription of the Starlark loader (string codec lemmas, line-loop invariant, fold/map "
              "commutation for the via->deps inversion) + extraction-based differential correspondence through a CPython shim of the .bzl sources")
